@@ -7,6 +7,7 @@
   * `host_port_edit_keeps_host_header_and_authority_pointing_to_destination` : after a host, port or (accepted) url edit of ANY request
                                                 (HTTP/1 or HTTP/2), an existing Host header and a non-empty authority are still there and
                                                 parse to the request's host and port
+  * `edit_history_keeps_host_header_and_authority_pointing_to_destination` : the same after any sequence of edits (fold form)
   * `url_get_set_idempotent_partial`          : assigning `request.url` again leaves the request exactly as it is, provided url.parse reads
                                                 the canonical URL back
   * `netloc_hostport`, `url_parse_reads_getter_url`, `url_get_set_idempotent_ascii` : that proviso PROVED for the transcription of
@@ -20,6 +21,9 @@
   * `url_get_set_idempotent_derived`          : port range, leading `/`, is_valid_host, the IDNA round trip and path stability are all
                                                 derived from the setter's own success; assumed: `IdnaAsciiLaw` and, for IPv6 literals,
                                                 `_check_bracketed_host`
+  * `setUrl_fields`, `url_read_back_equivalent` : the fields are what url.parse made of the URL; the URL read back parses to the same
+                                                scheme, host, port and path as the one assigned
+  * `url_get_set_idempotent_final`            : the same with the ASCII-ness of the path derived too (`pathAscii` no longer assumed)
   * `url_get_set_idempotent_counterexample`   : F-C33b — with an IDN host the URL read back is rejected
 -/
 import MitmVerif.Model.C33
@@ -1021,6 +1025,181 @@ theorem url_get_set_idempotent_derived (Q : PyLib) (law : IdnaAsciiLaw Q) (r : R
     · rw [epath, hrest]; split <;> simp_all
     · rw [eh, hhn]; rw [hhn] at hidn; exact hidn
     · rw [eh, hhn]; exact hval
+
+/-! ### `pathAscii` derived as well -/
+
+private theorem schemeSplit_snd_sub' (U : Str) : ∀ x ∈ (schemeSplit U).2, x ∈ U := schemeSplit_snd_sub U
+
+/-- what follows the netloc in urlsplit's reading consists of characters of the cleaned URL -/
+private theorem pySplit_rest_sub (vb : Str → Bool) (u sc nl rest : Str) (h : pySplit vb u = some (sc, nl, rest)) :
+    ∀ x ∈ rest, x ∈ u ∧ isUnsafe x = false := by
+  have hclean : ∀ x ∈ cleanUrl u, x ∈ u ∧ isUnsafe x = false := by
+    intro x hx
+    unfold cleanUrl at hx
+    obtain ⟨h1, h2⟩ := List.mem_filter.mp hx
+    exact ⟨mem_dropWhile_sub _ _ x h1, by simpa using h2⟩
+  unfold pySplit at h
+  simp only at h
+  split at h
+  · split at h
+    · cases h
+    · split at h
+      · cases h
+      · simp only [Option.some.injEq, Prod.mk.injEq] at h
+        obtain ⟨_, _, e⟩ := h
+        intro x hx
+        rw [← e] at hx
+        exact hclean x (schemeSplit_snd_sub' _ x (List.mem_of_mem_drop (mem_dropWhile_sub _ _ x hx)))
+  · simp only [Option.some.injEq, Prod.mk.injEq] at h
+    obtain ⟨_, _, e⟩ := h
+    intro x hx
+    rw [← e] at hx
+    exact hclean x (schemeSplit_snd_sub' _ x hx)
+
+/-- every character of the path `url.parse` returns is ASCII and none is TAB, LF or CR -/
+private theorem urlParse_path_chars (Q : PyLib) (u s h : Str) (p : Nat) (path : Str)
+    (hp : urlParse (pyLib (withRest Q)) u = some (s, h, p, path)) : ∀ c ∈ path, c < 128 ∧ c ≠ 9 ∧ c ≠ 10 ∧ c ≠ 13 := by
+  have hp0 := hp
+  unfold urlParse at hp
+  cases hs : (pyLib (withRest Q)).split u with
+  | none => rw [hs] at hp; cases hp
+  | some t =>
+    obtain ⟨sc, nl, full⟩ := t
+    rw [hs] at hp
+    simp only at hp
+    -- the URL is ASCII, otherwise url.parse would have refused it
+    have hascii : ∀ c ∈ u, c < 128 := by
+      cases hh : hostname nl with
+      | none => rw [hh] at hp; cases hp
+      | some hn =>
+        rw [hh] at hp
+        simp only at hp
+        cases hi : (pyLib (withRest Q)).idnaRt hn with
+        | none => rw [hi] at hp; cases hp
+        | some hd =>
+          rw [hi] at hp
+          simp only at hp
+          by_cases hany : (u.any fun c => decide (c ≥ 128)) = true
+          · rw [if_pos hany] at hp; cases hp
+          · intro c hc
+            have h' : ∀ x ∈ u, x < 128 := by simpa using hany
+            exact h' c hc
+    -- the stored path is the re-assembled rest of pySplit
+    have hs' : (pySplit (withRest Q).validBracketed u).map (fun t =>
+        (t.1, t.2.1, if ((withRest Q).normRest t.1 t.2.2).head? = some 47 then (withRest Q).normRest t.1 t.2.2
+          else 47 :: (withRest Q).normRest t.1 t.2.2)) = some (sc, nl, full) := hs
+    cases hq : pySplit (withRest Q).validBracketed u with
+    | none => rw [hq] at hs'; cases hs'
+    | some t0 =>
+      obtain ⟨a, b, rest⟩ := t0
+      rw [hq] at hs'
+      simp only [Option.map_some, Option.some.injEq, Prod.mk.injEq] at hs'
+      obtain ⟨_, _, e3⟩ := hs'
+      have hrest := pySplit_rest_sub _ u a b rest hq
+      obtain ⟨rest', hform⟩ := urlParse_path_form (withRest Q) u s h p path hp0
+      -- the path component of the result is `full`
+      have hpath : path = full := by
+        split at hp
+        · cases hp
+        · split at hp
+          · cases hp
+          · split at hp
+            · cases hp
+            · split at hp
+              · cases hp
+              · split at hp
+                · cases hp
+                · simp only [Option.some.injEq, Prod.mk.injEq] at hp
+                  exact hp.2.2.2.symm
+      intro c hc
+      rw [hpath, ← e3] at hc
+      have hc' : c = 47 ∨ c ∈ normRestPy a rest := by
+        show c = 47 ∨ c ∈ (withRest Q).normRest a rest
+        split at hc
+        · exact Or.inr hc
+        · rcases List.mem_cons.mp hc with e | e
+          · exact Or.inl e
+          · exact Or.inr e
+      rcases hc' with rfl | hc'
+      · decide
+      · rcases normRestPy_sub a rest c hc' with m | rfl | rfl | rfl
+        · obtain ⟨mu, mun⟩ := hrest c m
+          have := hascii c mu
+          simp only [isUnsafe, Bool.or_eq_false_iff, decide_eq_false_iff_not] at mun
+          exact ⟨this, mun.1.1, mun.1.2, mun.2⟩
+        · decide
+        · decide
+        · decide
+
+/-- what remains to be assumed about a request produced by the URL setter: its shape, and `_check_bracketed_host` for IPv6 literals -/
+structure GetterUrlOk4 (Q : PyLib) (r : Req) : Prop where
+  notConnect : r.method.map upperC ≠ S "CONNECT"
+  scheme : r.scheme = S "http" ∨ r.scheme = S "https"
+  host : HostOk r.host
+  bracketedOk : 58 ∈ r.host → Q.validBracketed r.host = true
+
+/-- **C33 (url), final form.** As `url_get_set_idempotent_derived`, with the ASCII-ness of the path derived too: a request produced
+    by the URL setter from ANY accepted `u`, with an http/https scheme and a lower-case ASCII host, is left exactly as it is by
+    assigning its own `url` again. -/
+theorem url_get_set_idempotent_final (Q : PyLib) (law : IdnaAsciiLaw Q) (r : Req) (u : Str) (r' : Req)
+    (h1 : setUrl (pyLib (withRest Q)) r u = some r') (ok : GetterUrlOk4 Q r') :
+    setUrl (pyLib (withRest Q)) r' (url r') = some r' := by
+  have h1' := h1
+  unfold setUrl at h1'
+  cases hp : urlParse (pyLib (withRest Q)) u with
+  | none => rw [hp] at h1'; cases h1'
+  | some q =>
+    obtain ⟨s, hh, p, path⟩ := q
+    rw [hp] at h1'
+    simp only [Option.some.injEq] at h1'
+    have epath : r'.path = path := by rw [← h1']
+    exact url_get_set_idempotent_derived Q law r u r' h1
+      { notConnect := ok.notConnect, scheme := ok.scheme, host := ok.host, bracketedOk := ok.bracketedOk,
+        pathAscii := by rw [epath]; exact urlParse_path_chars Q u s hh p path hp }
+
+/-! ### the remaining clauses of the statement: the fields read back consistently, and the URL read back is equivalent -/
+
+/-- **"scheme, host, port and path read back consistently with it"**: after an accepted assignment the four fields are exactly what
+    `url.parse` made of the URL -/
+theorem setUrl_fields (P : UrlLib) (r : Req) (u : Str) (r' : Req) (h : setUrl P r u = some r') :
+    urlParse P u = some (r'.scheme, r'.host, r'.port, r'.path) := by
+  unfold setUrl at h
+  cases hp : urlParse P u with
+  | none => rw [hp] at h; cases h
+  | some q =>
+    obtain ⟨s, hh, p, path⟩ := q
+    rw [hp] at h
+    simp only [Option.some.injEq] at h
+    rw [← h]
+    rfl
+
+/-- **"reading the URL back yields an equivalent URL"**: the URL the getter returns parses to the same scheme, host, port and path as
+    the URL that was assigned (under the hypotheses of `url_get_set_idempotent_final`) -/
+theorem url_read_back_equivalent (Q : PyLib) (law : IdnaAsciiLaw Q) (r : Req) (u : Str) (r' : Req)
+    (h1 : setUrl (pyLib (withRest Q)) r u = some r') (ok : GetterUrlOk4 Q r') :
+    urlParse (pyLib (withRest Q)) (url r') = urlParse (pyLib (withRest Q)) u := by
+  rw [setUrl_fields _ r u r' h1]
+  exact setUrl_fields _ r' (url r') r' (url_get_set_idempotent_final Q law r u r' h1 ok)
+
+/-! ### whole edit histories -/
+
+/-- a history of host / port / url edits applied in order -/
+def applyEdits (P : UrlLib) (r : Req) (es : List Edit) : Req := es.foldl (applyEdit P) r
+
+/-- **C33 (edit histories).** After ANY non-empty sequence of host, port and url edits on any request, provided the last edit took
+    effect and the destination it leaves is well formed, an existing Host header is still there and names the final host and port,
+    and so does a non-empty authority — whatever the earlier edits did. -/
+theorem edit_history_keeps_host_header_and_authority_pointing_to_destination
+    (P : UrlLib) (valid : Str → Bool) (r : Req) (es : List Edit) (e : Edit)
+    (hacc : ∀ u, e = .url u → (setUrl P (applyEdits P r es) u).isSome)
+    (hne : ∀ x, x ≠ [] → P.normAuth x ≠ [])
+    (hd : DestOk P valid (applyEdits P r (es ++ [e]))) :
+    Consistent valid (applyEdits P r (es ++ [e])) ∧
+      ((applyEdits P r (es ++ [e])).hostHeader.isSome = (applyEdits P r es).hostHeader.isSome) ∧
+      ((applyEdits P r (es ++ [e])).authority = [] ↔ (applyEdits P r es).authority = []) := by
+  have e1 : applyEdits P r (es ++ [e]) = applyEdit P (applyEdits P r es) e := by simp [applyEdits, List.foldl_append]
+  rw [e1] at hd ⊢
+  exact host_port_edit_keeps_host_header_and_authority_pointing_to_destination P valid (applyEdits P r es) e hacc hne hd
 
 /-! ### F-C33b: IDN hosts -/
 private def uA : Str := S "http://xn--bcher-kva.example/p"
